@@ -32,6 +32,7 @@ def check(v, tier, opts):
                         "&mut VecDeque<MaybeUninit<T>>, ArrayViewMut1<MaybeUninit<T>> and a logging buffer"])
     v.bounds.append("range: start/end/step integers in [-20,20] (usize: [0,20]), step != 0, f64 steps k/2 for k in -4..=4 \\ {0}; "
                     "progression of at most 6 terms (quick) / 41 terms (thorough)")
+    v.bounds.append("trusted collection of a to_trust(4) iterator after an item was taken from the front and / or the back: 4 symbolic elements")
     v.bounds.append("linspace: n in 0..=5 concrete, endpoints integers in [-20,20]; full: len 0..=5; collectors: sources of "
                     "0..=4 items, every error mask; write_trust_iter: buffers 0..=4 against iterators 0..=5")
     v.assumptions.append("linspace over usize is checked for start <= end only (a decreasing sequence needs a negative step "
